@@ -420,6 +420,7 @@ pub fn sim(_args: &[String]) -> i32 {
                 p[3].parse().unwrap(),
                 p.get(4).map_or(1000, |x| x.parse().unwrap()),
             )),
+            "terse" => verif_log::set_terse(true),
             "dup" => dup = p[1].parse().unwrap(),
             "loss" => loss = p[1].parse().unwrap(),
             "world" => {
